@@ -362,6 +362,21 @@ var c05Ops = []c05Op{
 			pkts = append(pkts, pk(in[i:i+188]))
 		}
 		_, err := psi.FilterPMTPacketsToPids(pkts, []int{arg & 0x1fff, 0x101})
+		// also ask for streams the table really lists (as far as the library's own parser makes them out),
+		// so that the copying of kept streams runs on ill-formed tables too
+		var pay []byte
+		for _, p := range pkts {
+			if b, e2 := packet.Payload(p); e2 == nil {
+				pay = append(pay, b...)
+			}
+		}
+		if t, e2 := psi.NewPMT(pay); e2 == nil && t != nil {
+			if pids := t.Pids(); len(pids) > 0 {
+				_, _ = psi.FilterPMTPacketsToPids(pkts, append([]int(nil), pids...))
+				_, _ = psi.FilterPMTPacketsToPids(pkts, []int{pids[len(pids)-1]})
+				_, _ = psi.FilterPMTPacketsToPids(pkts, []int{0, pids[0]})
+			}
+		}
 		return res(err)
 	}},
 	{"pes.NewPESHeader", "bytes", true, func(in []byte, arg int) string {
